@@ -183,6 +183,7 @@ class Report:
         self.assumptions = []
         self.notes = []
         self.findings = [f for f in load_findings().get("known", []) if f.get("property") == prop]
+        shutil.rmtree(os.path.join(VERIF, "replays", prop), ignore_errors=True)  # replay files of earlier runs
         self._seen_sigs = set()
         self.sig_counts = {}
 
